@@ -919,6 +919,132 @@ def c13_streams(ctx):
 
 
 # ------------------------------------------------------------------------------------------------
+# C14 / C15
+
+def c14_pairs(ctx):
+    rng = ctx.rng
+    pairs = []
+    methods = german_methods(ctx)
+    for m in (methods if not ctx.quick else rng.sample(methods, 10) + ["02", "16", "25"]):
+        accs = german_accounts(ctx, 4 if ctx.quick else 16) + ["0000001211", "0000000014"]
+        for _ in range(2 if ctx.quick else 8):
+            a1, a2 = rng.sample(accs, 2)
+            pairs.append(({"kind": "algo_validate", "key": "DE:" + m, "account": a1},
+                          {"kind": "algo_validate", "key": "DE:" + m, "account": a2}))
+        pairs.append(({"kind": "algo_validate", "key": "DE:" + m, "account": "0000001211"},
+                      {"kind": "algo_compute", "key": "DE:" + m, "account": "0000000014"}))
+    # cross-method pairs that share a class hierarchy, and public API calls routed to the same singleton
+    for _ in range(6 if ctx.quick else 40):
+        m1, m2 = rng.sample(methods, 2)
+        pairs.append(({"kind": "algo_validate", "key": "DE:" + m1, "account": german_accounts(ctx, 1)[0]},
+                      {"kind": "algo_validate", "key": "DE:" + m2, "account": german_accounts(ctx, 1)[0]}))
+    tsv = os.path.join(os.path.dirname(HERE), "coq", "theories", "Gen", "banks.tsv")
+    de = [dec(l.split("\t")[2]) for l in open(tsv) if dec(l.split("\t")[1]) == "DE" and l.split("\t")[5].strip() not in ("none",)]
+    for _ in range(4 if ctx.quick else 30):
+        ibans = []
+        for _k in range(2):
+            b = rng.choice(de) + german_accounts(ctx, 1)[0]
+            ibans.append("DE" + iso_digits("DE", b) + b)
+        pairs.append(({"kind": "iban", "text": ibans[0]}, {"kind": "iban", "text": ibans[1]}))
+    for cc in (["ES", "IT", "FR", "NO", "BE"] if ctx.quick else NATIONAL):
+        if cc in ctx.facts["iban_rows"]:
+            pairs.append(({"kind": "iban", "text": valid_iban(ctx, cc)}, {"kind": "iban", "text": valid_iban(ctx, cc)}))
+    pairs.append(({"kind": "from_bank_code", "cc": "DE", "code": "43060967"}, {"kind": "from_bank_code", "cc": "DE", "code": "01010101"}))
+    pairs.append(({"kind": "generate", "cc": "DE", "bank": "43060967", "account": "532013000"},
+                  {"kind": "iban", "text": "DE89370400440532013000"}))
+    pairs.append(({"kind": "bic", "text": "GENODEM1GLS"}, {"kind": "iban", "text": "DE89370400440532013000", "validate_bban": False}))
+    return pairs
+
+
+def schedules(ctx):
+    """C14 on the implementation: every 'T2 runs atomically after k source lines of T1' schedule (all k, both orders) and
+    random fine-grained schedules, for pairs of calls routed to the same shared objects."""
+    pairs = c14_pairs(ctx)
+    job = {"pairs": pairs, "seed": ctx.seed, "random_schedules": 3 if ctx.quick else 12}
+    env = dict(os.environ)
+    env.update({"PYTHONPATH": os.environ.get("VERIF_REPO", "/repo"), "PYTHONHASHSEED": "0"})
+    r = subprocess.run(["/venv/bin/python", os.path.join(HERE, "sched.py"), "explore"], input=json.dumps(job),
+                       capture_output=True, text=True, env=env, timeout=3000)
+    if r.returncode != 0:
+        return {"ok": False, "cases": 0, "detail": "sched.py failed: " + r.stderr[-400:]}
+    out = json.loads(r.stdout.strip().splitlines()[-1])
+    ctx.cache["sched_stats"] = {"pairs": out["pairs"], "schedules": out["runs"]}
+    if out["fails"]:
+        f = out["fails"][0]
+        return {"ok": False, "cases": out["runs"], "kind": "schedule",
+                "violation": {"kind": "schedule", "call": "two concurrent calls", "args": [], "calls": f.get("calls"),
+                              "schedule": f.get("schedule"), "args_shown": [json.dumps(f.get("calls"))],
+                              "observed_implementation": json.dumps(f.get("interleaved", f.get("error"))),
+                              "expected_by_spec": json.dumps(f.get("solo")), "trace_tail": f.get("trace_tail")}}
+    return {"ok": True, "cases": out["runs"]}
+
+
+def c14_streams(ctx):
+    # the same library calls, sequentially, against the model (the model is pure: any dependence on shared state shows)
+    for m in german_methods(ctx):
+        for a in ["0000001211", "0000000014"] + german_accounts(ctx, 3 if ctx.quick else 30):
+            yield Case("corr", "algo_validate", [enc("DE:" + m), enc(a), "-"], "sequential-DE:" + m, True)
+
+
+def history_orders(ctx):
+    """C15 on the implementation: the same calls in two different orders in two fresh processes must give the same
+    per-call results; the registries and earlier objects must be unchanged at the end."""
+    rng = ctx.rng
+    cases = []
+    for gen in (c07_streams, c06_streams, c08_streams, c12_streams, c04_streams):
+        try:
+            cs = [c for c in gen(ctx) if c.post is None]
+        except Exception:  # noqa: BLE001
+            cs = []
+        rng.shuffle(cs)
+        cases += cs[: (150 if ctx.quick else 2500)]
+    lines = ["\t".join([c.fn, *c.args]) for c in cases]
+    lines = ["history_probe\tbegin"] + lines + ["history_probe\tend"]
+    facts_path = os.path.join(os.path.dirname(HERE), "coq", "theories", "Gen", "facts.json")
+
+    def run(ls):
+        env = dict(os.environ)
+        env.update({"PYTHONPATH": os.environ.get("VERIF_REPO", "/repo"), "PYTHONHASHSEED": "0", "VERIF_FACTS": facts_path})
+        r = subprocess.run(["/venv/bin/python", os.path.join(HERE, "impl_runner.py")], input="\n".join(ls) + "\n",
+                           capture_output=True, text=True, env=env, timeout=3000)
+        return r.stdout.split("\n")[:-1]
+    a = run(lines)
+    perm = list(range(1, len(lines) - 1))
+    rng.shuffle(perm)
+    lines_b = [lines[0]] + [lines[i] for i in perm] + [lines[-1]]
+    b = run(lines_b)
+    if len(a) != len(lines) or len(b) != len(lines):
+        return {"ok": False, "cases": 0, "detail": "runner failed"}
+    if a[0] != a[-1] or b[0] != b[-1]:
+        return {"ok": False, "cases": len(lines), "violation": {
+            "kind": "history", "call": "registry / object snapshot before and after the history", "args": [],
+            "args_shown": [f"{len(lines) - 2} calls"], "observed_implementation": (a[-1] if a[0] != a[-1] else b[-1])[:300],
+            "expected_by_spec": a[0][:300]}}
+    for pos, i in enumerate(perm):
+        if a[i] != b[pos + 1]:
+            return {"ok": False, "cases": len(lines), "violation": {
+                "kind": "history", "call": lines[i].split("\t")[0], "args": lines[i].split("\t")[1:],
+                "args_shown": [show_arg(x) for x in lines[i].split("\t")[1:]],
+                "history_a": lines[1:i][-20:], "history_b": lines_b[1:pos + 1][-20:],
+                "observed_implementation": b[pos + 1], "expected_by_spec": a[i]}}
+    return {"ok": True, "cases": 2 * len(lines)}
+
+
+def c15_streams(ctx):
+    # one long history inside a single implementation process, every call compared with the (pure) model
+    rng = ctx.rng
+    cases = []
+    for gen in (c07_streams, c06_streams, c04_streams, c12_streams):
+        cs = [c for c in gen(ctx) if c.kind == "corr" and c.post is None]
+        rng.shuffle(cs)
+        cases += cs[: (400 if ctx.quick else 6000)]
+    rng.shuffle(cases)
+    for c in cases:
+        c.tag = "history-" + c.fn
+        yield c
+
+
+# ------------------------------------------------------------------------------------------------
 # C16
 
 def c16_streams(ctx):
@@ -1108,6 +1234,23 @@ PREDICATES = {"de76_remainder10": _pred_de76, "pin_on_computed_digits": _pred_pi
 
 
 REGISTRY = {
+    "C14": {
+        "streams": c14_streams,
+        "extra": {"schedules": schedules},
+        "rule": "pairs of calls routed to the same shared objects (every German method x account pairs incl. remainder-1 accounts, "
+                "validate vs compute, cross-method pairs, DE IBANs with validate_bban, national algorithms, lookups, generate): "
+                "each pair is run under EVERY schedule in which one call executes atomically after k source lines of the other "
+                "(all k, both orders) plus random fine-grained schedules, deterministically via sys.settrace; every call must "
+                "return or raise what it does alone",
+    },
+    "C15": {
+        "streams": c15_streams,
+        "extra": {"history-orders": history_orders},
+        "rule": "one long shuffled history of validation, generation, lookup and algorithm calls (failing calls included) inside a "
+                "single implementation process, each result compared with the pure model; the same calls in two different orders "
+                "in two fresh processes must agree call by call; a digest of the registries and of objects created first must be "
+                "identical before and after",
+    },
     "C16": {
         "streams": c16_streams,
         "rule": "IBAN / BIC / BBAN objects (valid, and constructed with validation off: empty, short, unknown country, "
